@@ -17,12 +17,14 @@ def networkx_roundtrip(part, tier):
     """Conversion to and from networkx on every graph of the box (plain enumeration, no solver: reported
     separately and never counted as decided)."""
     from cnfgen.graphs import Graph, DirectedGraph, BipartiteGraph
+    from ..xh import c16 as V
     top = 4 if tier == 'quick' else 5
     n_ok = 0
     for g in gen.graph_box(top):
         G = gen.mk_graph(g)
         H = Graph.from_networkx(G.to_networkx())
-        if H.number_of_vertices() != g['n'] or sorted(H.edges()) != sorted(map(tuple, g['edges'])):
+        if H.number_of_vertices() != g['n'] or sorted(H.edges()) != sorted(map(tuple, g['edges'])) or \
+                not V._graph_views_ok(H, g['n'], {tuple(e) for e in g['edges']}):
             part.case('c16.nx', 'networkx_roundtrip', {'type': 'simple', 'n': g['n'], 'edges': g['edges']}, 'Graph -> networkx -> Graph changed the graph')
         n_ok += 1
     for n in range(0, 4):
@@ -31,13 +33,29 @@ def networkx_roundtrip(part, tier):
                 continue
             D = gen.mk_digraph({'n': n, 'edges': E})
             H = DirectedGraph.from_networkx(D.to_networkx())
-            if H.number_of_vertices() != n or sorted(H.edges()) != sorted(map(tuple, E)):
-                part.case('c16.nx', 'networkx_roundtrip', {'type': 'digraph', 'n': n, 'edges': E}, 'DirectedGraph -> networkx -> DirectedGraph changed the graph')
+            if H.number_of_vertices() != n or sorted(H.edges()) != sorted(map(tuple, E)) or not V._digraph_views_ok(H, n, {tuple(e) for e in E}):
+                part.case('c16.nx', 'networkx_roundtrip', {'type': 'digraph', 'n': n, 'edges': E}, 'DirectedGraph -> networkx -> DirectedGraph changed the graph or one of its views (is_dag, predecessors, ...)')
             n_ok += 1
+            # a networkx DiGraph built by hand (nodes inserted high to low, edges in reverse order), through from_networkx and normalize
+            import networkx
+            N = networkx.DiGraph()
+            N.add_nodes_from(range(n, 0, -1))
+            N.add_edges_from(reversed([tuple(e) for e in E]))
+            for conv in ('from_networkx', 'normalize'):
+                try:
+                    H = getattr(DirectedGraph, conv)(N)
+                    ok = V._digraph_views_ok(H, n, {tuple(e) for e in E})
+                except Exception:  # noqa
+                    ok = False
+                if not ok:
+                    part.case('c16.nx', 'networkx_roundtrip', {'type': 'nx-digraph', 'n': n, 'edges': E, 'conv': conv},
+                              'DirectedGraph.%s of a hand-built networkx DiGraph: a view (edges, is_dag, predecessors, ...) disagrees with the edges' % conv)
+                n_ok += 1
     for g in gen.bip_box(gen.BIP_QUICK if tier == 'quick' else gen.BIP_THOROUGH):
         B = gen.mk_bip(g)
         H = BipartiteGraph.from_networkx(B.to_networkx())
-        if (H.left_order(), H.right_order()) != (g['l'], g['r']) or sorted(H.edges()) != sorted(map(tuple, g['edges'])):
+        if (H.left_order(), H.right_order()) != (g['l'], g['r']) or sorted(H.edges()) != sorted(map(tuple, g['edges'])) or \
+                not V._bip_views_ok(H, g['l'], g['r'], {tuple(e) for e in g['edges']}):
             part.case('c16.nx', 'networkx_roundtrip', g, 'BipartiteGraph -> networkx -> BipartiteGraph changed the graph')
         n_ok += 1
     # networkx graphs that were NOT produced by to_networkx: any node order, either orientation of the edges,
@@ -101,6 +119,18 @@ def replay(case):
             except Exception as e:  # noqa
                 return True, 'from_networkx raised %s: %s' % (type(e).__name__, e)
             return got != (l, r, sorted(E)), 'from_networkx gave %s' % (got,)
+        if p.get('type') == 'nx-digraph':
+            import networkx
+            from ..xh import c16 as V
+            N = networkx.DiGraph()
+            N.add_nodes_from(range(p['n'], 0, -1))
+            N.add_edges_from(reversed([tuple(e) for e in p['edges']]))
+            try:
+                H = getattr(DirectedGraph, p['conv'])(N)
+            except Exception as e:  # noqa
+                return True, '%s raised %s: %s' % (p['conv'], type(e).__name__, e)
+            ok = V._digraph_views_ok(H, p['n'], {tuple(e) for e in p['edges']})
+            return (not ok), 'edges %s is_dag %s' % (sorted(H.edges()), H.is_dag())
         if p.get('type') == 'simple':
             G = gen.mk_graph(p)
             H = Graph.from_networkx(G.to_networkx())
@@ -108,7 +138,9 @@ def replay(case):
         if p.get('type') == 'digraph':
             D = gen.mk_digraph(p)
             H = DirectedGraph.from_networkx(D.to_networkx())
-            return (H.number_of_vertices() != p['n'] or sorted(H.edges()) != sorted(map(tuple, p['edges']))), 'roundtrip edges %s' % sorted(H.edges())
+            from ..xh import c16 as V
+            return (H.number_of_vertices() != p['n'] or sorted(H.edges()) != sorted(map(tuple, p['edges'])) or
+                    not V._digraph_views_ok(H, p['n'], {tuple(e) for e in p['edges']})), 'roundtrip edges %s is_dag %s' % (sorted(H.edges()), H.is_dag())
         B = gen.mk_bip(p)
         H = BipartiteGraph.from_networkx(B.to_networkx())
         return ((H.left_order(), H.right_order()) != (p['l'], p['r']) or sorted(H.edges()) != sorted(map(tuple, p['edges']))), 'roundtrip %s' % sorted(H.edges())
